@@ -23,7 +23,8 @@ def Call.prims : Call → List Op
   | .canStop => [.tryUnset stChannelUpdated]
   | .setChannel true => [.set stChannelValue, .set stChannelUpdated]
   | .setChannel false => [.unset stChannelValue, .set stChannelUpdated]
-  | .tag => [.unset stSeen]
+  | .tag => [.tryUnset stSeen]
+  | .origTag => [.unset stSeen]
   | _ => []
 
 /-- every read-modify-write in the program tree satisfies `S`, whatever the loads return -/
@@ -40,15 +41,17 @@ macro "opsin" : tactic => `(tactic| repeat (first | (intro _) | (apply opsIn_ite
 theorem meth_opsIn (c : Call) : OpsIn (· ∈ Call.prims c) c.meth := by
   cases c with
   | setChannel e => cases e <;> simp only [Call.meth, flagM, Call.prims] <;> opsin
-  | canStop => simp only [Call.meth, flagM, domM, closedM, Call.prims]; opsin
-  | canRecv => simp only [Call.meth, flagM, domM, closedM, Call.prims]; opsin
-  | canStart => simp only [Call.meth, flagM, domM, closedM, Call.prims]; opsin
-  | dom m => simp only [Call.meth, flagM, domM, closedM, Call.prims]; opsin
-  | ready => simp only [Call.meth, flagM, domM, closedM, Call.prims]; opsin
-  | tag => simp only [Call.meth, flagM, domM, closedM, Call.prims]; opsin
-  | prim op => simp only [Call.meth, flagM, domM, closedM, Call.prims]; opsin
-  | last => simp only [Call.meth, flagM, domM, closedM, Call.prims]; opsin
-  | simple m => simp only [Call.meth, flagM, domM, closedM, Call.prims]; opsin
+  | canStop => simp only [Call.meth, flagM, domM, dom1M, closedM, Call.prims]; opsin
+  | canRecv => simp only [Call.meth, flagM, domM, dom1M, closedM, Call.prims]; opsin
+  | canStart => simp only [Call.meth, flagM, domM, dom1M, closedM, Call.prims]; opsin
+  | dom m => simp only [Call.meth, flagM, domM, dom1M, closedM, Call.prims]; opsin
+  | ready => simp only [Call.meth, flagM, domM, dom1M, closedM, Call.prims]; opsin
+  | tag => simp only [Call.meth, flagM, domM, dom1M, closedM, Call.prims]; opsin
+  | origTag => simp only [Call.meth, flagM, domM, dom1M, closedM, Call.prims]; opsin
+  | origReady => simp only [Call.meth, flagM, domM, dom1M, closedM, Call.prims]; opsin
+  | prim op => simp only [Call.meth, flagM, domM, dom1M, closedM, Call.prims]; opsin
+  | last => simp only [Call.meth, flagM, domM, dom1M, closedM, Call.prims]; opsin
+  | simple m => simp only [Call.meth, flagM, domM, dom1M, closedM, Call.prims]; opsin
 
 structure GSys where
   sys : ASys
